@@ -22,8 +22,8 @@ def add_failure(out, kind, what, inp, expected, got, confirmed=True, sig=None, *
     _add_failure(out, kind, what, inp, expected, got, confirmed=confirmed, sig=sig, **kw)
 
 PROP = "C07"
-PROPS_FILES = ["CogentModel/Props/C07.lean", "CogentModel/Props/C07Lf.lean"]
-LEAN_TARGETS = ["CogentModel.Props.C07", "CogentModel.Props.C07Lf"]
+PROPS_FILES = ["CogentModel/Props/C07.lean", "CogentModel/Props/C07Lf.lean", "CogentModel/Props/C07Rules2.lean"]
+LEAN_TARGETS = ["CogentModel.Props.C07", "CogentModel.Props.C07Lf", "CogentModel.Props.C07Rules2"]
 DRIVER = "drv_c07"
 TRUSTED = [
     "hand-written model lean/CogentModel/Model/Calculator.lean of recalculation.calculation.Calculator "
@@ -100,7 +100,7 @@ def correspondence(ctx):
         "recomputation"
     )
     rng = ctx.subrng("corr")
-    n_hist = ctx.budget(3000, 40000)
+    n_hist = ctx.budget(2200, 40000)
     cases = _small_exhaustive_cases()
     cases += _calc_cases(rng, n_hist, 30, malformed=False)
     n_valid = len(cases)
@@ -191,6 +191,9 @@ def correspondence(ctx):
     from . import c07_lfops
 
     c07_lfops.corr_lf_ops(ctx, out)
+    from . import c07_rules2
+
+    c07_rules2.corr_rules2(ctx, out)
     return out
 
 
@@ -697,9 +700,9 @@ def spec_check(ctx, budget):
     _spec_calc(ctx, out, rng, 600 * budget)
     _spec_ctl(ctx, out, rng, 300 * budget)
     _spec_rules(ctx, out, rng, 60 * budget)
-    n_cases = 60 * budget if not ctx.thorough else 40 * budget
+    n_cases = 45 * budget if not ctx.thorough else 40 * budget
     _spec_lf(ctx, out, rng, n_cases, 7, (4, 10, 25))
-    _spec_lf_ml(ctx, out, rng, (24 * budget) if not ctx.thorough else 20 * budget, 5)
+    _spec_lf_ml(ctx, out, rng, (18 * budget) if not ctx.thorough else 20 * budget, 5)
     return out
 
 
